@@ -1,0 +1,58 @@
+//go:build verif
+
+package eventlogger
+
+import (
+	"context"
+	"sync/atomic"
+)
+
+type verifHookFn func(ctx context.Context, point string, id NodeID)
+
+var verifHook atomic.Pointer[verifHookFn]
+
+// VerifSetHook installs (or with nil removes) the verification hook.
+func VerifSetHook(f func(ctx context.Context, point string, id NodeID)) {
+	if f == nil {
+		verifHook.Store(nil)
+		return
+	}
+	fn := verifHookFn(f)
+	verifHook.Store(&fn)
+}
+
+func verifPoint(ctx context.Context, point string, id NodeID) {
+	if f := verifHook.Load(); f != nil {
+		(*f)(ctx, point, id)
+	}
+}
+
+// VerifSnapshot returns the broker's private node reference counts and, per
+// event type, the node IDs of every registered pipeline (diagnostics only).
+func (b *Broker) VerifSnapshot() (map[NodeID]int, map[EventType]map[PipelineID][]NodeID) {
+	b.lock.RLock()
+	defer b.lock.RUnlock()
+
+	counts := make(map[NodeID]int, len(b.nodes))
+	for id, u := range b.nodes {
+		counts[id] = u.referenceCount
+	}
+	pipes := make(map[EventType]map[PipelineID][]NodeID, len(b.graphs))
+	for t, g := range b.graphs {
+		m := make(map[PipelineID][]NodeID)
+		g.roots.Range(func(id PipelineID, p *registeredPipeline) bool {
+			var ids []NodeID
+			for n := p.rootNode; n != nil; {
+				ids = append(ids, n.nodeID)
+				if len(n.next) == 0 {
+					break
+				}
+				n = n.next[0]
+			}
+			m[id] = ids
+			return true
+		})
+		pipes[t] = m
+	}
+	return counts, pipes
+}
